@@ -179,9 +179,75 @@ func randScene(r *rand.Rand, maxv int) Desc {
 	return d
 }
 
+// addSpecials writes special IEEE values (SpecialValue) over the data of a scene: into vector
+// attributes of meshes a model names (never Joint: NaN has no integer image) and into GPU
+// instances.  Roughly: half of the values are NaN; a quarter of the NaN hits blank a whole
+// element; +-Inf (which no glTF document can declare as a bound) is kept to one hit in eight.
+func addSpecials(r *rand.Rand, d *Desc) {
+	kind := func() int {
+		switch r.Intn(8) {
+		case 0, 1, 2:
+			return 1
+		case 3:
+			return 12
+		case 4:
+			return 2 + r.Intn(2)
+		}
+		return 4 + r.Intn(NSpecial-3) // 4..NSpecial
+	}
+	used := map[int]bool{}
+	for _, m := range d.Models {
+		used[m.Mesh-1] = true
+	}
+	hits := 0
+	for mi := range d.Meshes {
+		m := &d.Meshes[mi]
+		var cand []int
+		for ai, a := range m.Attrs {
+			if a.Ar >= 2 && a.Id != 7 {
+				cand = append(cand, ai)
+			}
+		}
+		if !used[mi] || len(cand) == 0 || m.Nv == 0 || (hits > 0 && r.Intn(2) == 0) {
+			continue
+		}
+		for n := 1 + r.Intn(3); n > 0; n-- {
+			ai := cand[r.Intn(len(cand))]
+			ar, vi, k := m.Attrs[ai].Ar, r.Intn(m.Nv), kind()
+			if len(m.Idx) > 0 && r.Intn(2) == 0 { // a vertex some corner really names
+				vi = m.Idx[r.Intn(len(m.Idx))]
+			}
+			if (k == 1 || k == 12) && r.Intn(4) == 0 {
+				for c := 0; c < ar; c++ {
+					m.Spec = append(m.Spec, DSpecial{A: ai, I: vi, C: c, K: k})
+				}
+			} else {
+				m.Spec = append(m.Spec, DSpecial{A: ai, I: vi, C: r.Intn(ar), K: k})
+			}
+			hits++
+		}
+	}
+	for mi := range d.Models {
+		for ii := range d.Models[mi].Inst {
+			if r.Intn(3) == 0 {
+				in := &d.Models[mi].Inst[ii]
+				in.Sp = append(in.Sp, DSpecial{A: r.Intn(3), C: r.Intn(4), K: kind()})
+			}
+		}
+	}
+}
+
+// specialScene: a seeded scene as randScene makes them, with special values written over it.
+func specialScene(r *rand.Rand, maxv int) Desc {
+	d := randScene(r, maxv)
+	d.Tag = "special"
+	addSpecials(r, &d)
+	return d
+}
+
 // bigScene exercises the 16/32-bit index threshold with real meshes of
 // nv vertices whose indices reference vertex nv-1.
-func bigScene(r *rand.Rand, nv int, kinds []string) Desc {
+func bigScene(r *rand.Rand, nv int, kinds []string, special bool) Desc {
 	d := Desc{Tag: "big", VMode: "lattice", Div: 8, Meshes: []DMesh{}, Texs: []DTex{}, Mats: []DMat{}, Models: []DModel{},
 		Lights: []DLight{}, Kinds: kinds, Risk: []string{}}
 	attrs := []DAttr{{Ar: 3, Id: 1}}
@@ -193,6 +259,18 @@ func bigScene(r *rand.Rand, nv int, kinds []string) Desc {
 		topo, ni = "point", nv
 	}
 	d.Meshes = append(d.Meshes, DMesh{Topo: topo, Nv: nv, Ni: ni, Idx: []int{}, Attrs: attrs, VSeed: r.Intn(1000)})
+	if special {
+		// NaNs in a mesh that is judged on summaries: one component, a whole element, the last vertex
+		for ai, a := range attrs {
+			d.Meshes[0].Spec = append(d.Meshes[0].Spec, DSpecial{A: ai, I: r.Intn(nv), C: r.Intn(a.Ar), K: 1},
+				DSpecial{A: ai, I: nv - 1, C: r.Intn(a.Ar), K: 12})
+			vi := r.Intn(nv)
+			for c := 0; c < a.Ar; c++ {
+				d.Meshes[0].Spec = append(d.Meshes[0].Spec, DSpecial{A: ai, I: vi, C: c, K: 1})
+			}
+			d.Meshes[0].Spec = append(d.Meshes[0].Spec, DSpecial{A: ai, I: r.Intn(nv), C: r.Intn(a.Ar), K: 4 + r.Intn(NSpecial-3)})
+		}
+	}
 	d.Meshes = append(d.Meshes, DMesh{Topo: "triangle", Nv: 3, Ni: 3, Idx: []int{2, 0, 1}, Attrs: []DAttr{{Ar: 3, Id: 1}}, VSeed: 5})
 	d.Models = append(d.Models, DModel{Name: 1, Mesh: 1, Trs: DTrs{T: []int{}, R: []int{}, S: []int{}}, Inst: []DTrs{}})
 	d.Models = append(d.Models, DModel{Name: 2, Mesh: 2, Trs: DTrs{T: []int{}, R: []int{}, S: []int{}}, Inst: []DTrs{}})
@@ -201,7 +279,6 @@ func bigScene(r *rand.Rand, nv int, kinds []string) Desc {
 	}
 	return d
 }
-
 
 // pairScenes: for every member of a material (and of the textures it names) one
 // scene with two models whose materials differ in exactly that member, in both
@@ -283,8 +360,27 @@ func pairScenes() []Desc {
 	return out
 }
 
-// GenRandom writes the material pair scenes, n seeded scene descriptors and `big` threshold scenes.
-func GenRandom(out string, seed int64, n, maxv, big int) error {
+// againKinds: every fourth scene is also written a second time from the same objects
+// (see Container), alternating which entry point goes second.
+func againKinds(i int) []string {
+	switch i % 8 {
+	case 0:
+		return []string{"glb", "text", "glb-again"}
+	case 4:
+		return []string{"glb", "text", "text-again"}
+	}
+	return []string{}
+}
+
+// MidSizes: vertex counts around powers of two (and 65 536 / 3) between the element-wise
+// judged meshes and the index-width threshold.  Nothing in the writer is known to depend on
+// them; they are there so that a size-dependent path would not go unexercised.
+var MidSizes = []int{4095, 4096, 4097, 16383, 16384, 16385, 21845, 21846, 32767, 32768, 32769}
+
+// GenRandom writes the material pair scenes, n seeded scene descriptors, nsp seeded scenes with
+// special IEEE values, `big` threshold scenes (every second one with NaNs) and `mid` scenes of
+// the MidSizes (rotated by the seed).
+func GenRandom(out string, seed int64, n, maxv, big, nsp, mid int) error {
 	fo, err := os.Create(out)
 	if err != nil {
 		return err
@@ -302,7 +398,9 @@ func GenRandom(out string, seed int64, n, maxv, big int) error {
 		}
 	}
 	for i := 0; i < n; i++ {
-		if err := enc.Encode(randScene(r, maxv)); err != nil {
+		d := randScene(r, maxv)
+		d.Kinds = againKinds(i + int(seed))
+		if err := enc.Encode(d); err != nil {
 			return err
 		}
 	}
@@ -312,7 +410,39 @@ func GenRandom(out string, seed int64, n, maxv, big int) error {
 		if i%4 == 1 {
 			kinds = []string{"text"}
 		}
-		if err := enc.Encode(bigScene(r, sizes[i%len(sizes)], kinds)); err != nil {
+		if err := enc.Encode(bigScene(r, sizes[i%len(sizes)], kinds, false)); err != nil {
+			return err
+		}
+	}
+	// Round 2 (own random streams: the scenes above are the ones they always were)
+	rs := rand.New(rand.NewSource(seed*7919 + 17))
+	for i := 0; i < nsp; i++ {
+		d := specialScene(rs, maxv)
+		d.Kinds = againKinds(i + int(seed) + 2)
+		if err := enc.Encode(d); err != nil {
+			return err
+		}
+	}
+	rb := rand.New(rand.NewSource(seed*104729 + 3))
+	for i := 0; i < big && nsp > 0; i += 2 { // the threshold sizes again, with NaNs
+		kinds := []string{"glb"}
+		if i%4 == 2 {
+			kinds = []string{"text"}
+		}
+		d := bigScene(rb, sizes[(i/2+int(seed))%len(sizes)], kinds, true)
+		d.Tag = "big-special"
+		if err := enc.Encode(d); err != nil {
+			return err
+		}
+	}
+	for i := 0; i < mid; i++ {
+		kinds := []string{"glb"}
+		if (i+int(seed))%3 == 0 {
+			kinds = []string{"text"}
+		}
+		d := bigScene(rb, MidSizes[(i+int(seed)*mid)%len(MidSizes)], kinds, i%2 == 1)
+		d.Tag = "mid"
+		if err := enc.Encode(d); err != nil {
 			return err
 		}
 	}
